@@ -20,6 +20,8 @@ import Mdsort.Proofs.Interp
 import Mdsort.Spec.Flags
 import Mdsort.Spec.Time
 import Mdsort.Proofs.FlagsTime
+import Mdsort.Spec.Dest
+import Mdsort.Model.Dest
 
 /-!
 Line-protocol driver: one request per line `<side> <op> <hexarg>*`, one response
@@ -295,6 +297,13 @@ def optIntS : Option Int → String
 
 def subdirOf (b : Bytes) : Model.Subdir := if b == [110] then .new else .cur
 
+def pathAction (b : Bytes) : Option Spec.PathAction :=
+  match b with
+  | 109 :: r => some (.move r)
+  | 102 :: r => some (.flag r)
+  | 70 :: r => some (.flags r)
+  | _ => none
+
 /-- Small pure functions: time, flags, paths. -/
 def handleSmall (side op : String) (args : List Bytes) : Option String :=
   match side, op, args with
@@ -322,6 +331,15 @@ def handleSmall (side op : String) (args : List Bytes) : Option String :=
     some (optHex (some (Spec.flagSuffix (Spec.adjustSeen (a == [110]) (b == [110]) (Proofs.lettersOf ⟨asNat u, asNat l⟩)))))
   | "M", "pslice", [path, siz, beg, e] => some (optHex (Model.pathslice path (asNat siz) (asInt beg) (asInt e)))
   | "M", "pjoin", [siz, d, f] => some (optHex (Model.pathjoin (asNat siz) d f))
+  -- dest <root> <sub> <name> <action>*: an action is `m<maildir>`, `f<subdir>` or `F<letters>`
+  | "S", "dest", root :: sub :: _ :: acts =>
+    (acts.mapM pathAction).map fun as => s!"{if Spec.destOK as then 1 else 0} {toHex (Spec.destPath (root, sub) as)}"
+  | "M", "dest", root :: sub :: name :: acts =>
+    (acts.mapM pathAction).map fun as =>
+      let env : Model.Env := { rx := fun _ _ => .nomatch, command := fun _ => -1, isDir := fun _ => false, now := 0,
+                               strptime := fun _ => none, zoneName := fun _ => none, fileTime := fun _ => none, dryrun := false,
+                               path := root ++ [47] ++ sub ++ [47] ++ name }
+      optHex (Model.finalPlace env [] as)
   | _, _, _ => none
 
 /-! ### world-level conformance -/
@@ -497,7 +515,7 @@ def handle (side op : String) (args : List String) : String :=
   | "S", "eval", some as => handleSpecEval as
   | sd, "interp", some as => handleInterp sd as
   | sd, o, some as =>
-    if ["tzoff", "tparse", "flagsp", "flagss", "msgflags", "pslice", "pjoin"].contains o then
+    if ["tzoff", "tparse", "flagsp", "flagss", "msgflags", "pslice", "pjoin", "dest"].contains o then
       match handleSmall sd o as with
       | some r => r
       | none => "NOTWF"
